@@ -375,6 +375,14 @@ pub fn run(tier: Tier) -> i32 {
         ("leak/descriptive-and-animation", r##"<svg><rect id="a" wh="10"/><title inside="#a">t</title><desc margin="2">d</desc><rect wh="5"><animate attributeName="x" to="5" margin="1"/><set attributeName="y" to="1" surround="#a"></set></rect><style margin="1">rect {fill:red}</style></svg>"##, None),
         ("leak/image-line-text", r##"<svg><rect id="a" wh="10"/><image href="i.png" surround="#a"/><line xy1="0" xy2="5" surround="#a" margin="1"/><text inside="#a" text="t"/></svg>"##, None),
         // a text reference is where it is written (text-loc moves it by the text offset)
+        // third review round (boxes are those of #x as written, in its own user space)
+        ("other-user-space/reference-in-translated-group", r##"<svg><g transform="translate(100 0)"><rect id="a" wh="10"/></g><rect id="x" surround="#a"/></svg>"##, Some((100., 0., 110., 10.))),
+        ("other-user-space/element-in-translated-group", r##"<svg><rect id="a" wh="10"/><g transform="translate(100 0)"><rect id="x" surround="#a"/></g></svg>"##, Some((-100., 0., -90., 10.))),
+        ("other-user-space/inside-reference-in-translated-group", r##"<svg><g transform="translate(100 0)"><rect id="c" wh="10"/></g><rect id="x" inside="#c"/></svg>"##, Some((100., 0., 110., 10.))),
+        ("other-user-space/placed-group-instance", r##"<svg><specs><g id="t"><rect id="in" wh="10 5"/></g></specs><reuse id="u" href="#t" x="30" y="40"/><rect id="x" surround="#in" margin="1"/></svg>"##, Some((29., 39., 41., 46.))),
+        ("own-transform/surround", r##"<svg><rect id="a" wh="10"/><rect id="x" surround="#a" transform="translate(50 0)"/></svg>"##, Some((-50., 0., -40., 10.))),
+        ("own-transform/scaled", r##"<svg><rect id="a" xy="10 20" wh="10"/><circle id="x" surround="#a" transform="translate(4 2) scale(2)"/></svg>"##, Some((1.964, 7.964, 9.036, 15.036))),
+        ("own-transform/inside", r##"<svg><rect id="c" wh="10"/><rect id="x" inside="#c" transform="translate(100 0)"/></svg>"##, Some((-100., 0., -90., 10.))),
         ("text-ref/text-loc", r##"<svg><text id="t" xy="20 20" text-loc="tl">hi</text><rect id="x" surround="#t" margin="0.5"/></svg>"##, Some((18.5, 18.5, 19.5, 19.5))),
         ("text-ref/plain", r##"<svg><text id="t" xy="20 20">hi</text><rect id="x" surround="#t" margin="2 1"/></svg>"##, Some((19., 18., 21., 22.))),
         ("prev-after-deferred/surround", r##"<svg><rect id="a" wh="10"/><rect id="x" surround="^ #z"/><rect id="z" xy="20" wh="3"/></svg>"##, Some((0., 0., 23., 23.))),
